@@ -93,10 +93,10 @@ def _print(t):
         return t.args[0]
     if op == "#forall":
         k, rng, body = t.args
-        return "(forall ((%s Int)) (=> %s %s))" % (k, rng, body)
+        return "(forall ((%s %s)) (=> %s %s))" % (k, sort_str(k.sort), rng, body)
     if op == "#exists":
         k, rng, body = t.args
-        return "(exists ((%s Int)) (and %s %s))" % (k, rng, body)
+        return "(exists ((%s %s)) (and %s %s))" % (k, sort_str(k.sort), rng, body)
     if not t.args:
         return op
     return "(" + op + " " + " ".join(str(a) for a in t.args) + ")"
